@@ -127,7 +127,7 @@ def parse_tlc_log(path):
                 res["errors"].append(line.strip())
             if "Model checking completed. No error has been found." in line or line.startswith("Finished in"):
                 res["completed"] = True
-            if line.startswith("<<\"INFO\"") or line.startswith("<<\"REJECTED\"") or line.startswith("<<\"ACCEPTED\""):
+            if line.startswith("<<\"INFO\"") or line.startswith("<<\"REJECTED") or line.startswith("<<\"ACCEPTED\""):
                 res["prints"].append(line.strip())
     return res
 
@@ -365,18 +365,25 @@ class Ctx:
             ev = json.loads(first)
             self.samples.append({"run": label, "event": {k: v for k, v in ev.items() if k != "text"}})
             return True
-        m = re.search(r'"REJECTED", (\d+)', msg)
-        at = int(m.group(1)) if m else None
-        ev = None
-        if at:
+        ats = [int(x) for x in re.findall(r'<<"REJECTED", (\d+)', "\n".join(res["prints"]))]
+        wanted = set(ats)
+        evs = {}
+        if wanted:
             with open(trace) as f:
                 for i, line in enumerate(f, start=1):
-                    if i == at:
-                        ev = json.loads(line)
-                        break
-        self.traces_ok -= 1 if count else 0
-        self.add_failure({"family": "trace", "case": {"model": model, "seed": self.seed, "tier": self.tier, "event_index": at},
-                          "detail": {"kind": "trace-rejected", "what": model, "event": ev, "tlc": msg[:600]}})
+                    if i in wanted:
+                        evs[i] = json.loads(line)
+        cnt = re.search(r'"REJECTED-COUNT", (\d+)', msg + " ".join(res["prints"]))
+        total = int(cnt.group(1)) if cnt else len(ats)
+        self.traces_ok -= total if count else 0
+        if not ats:
+            self.add_failure({"family": "trace", "case": {"model": model, "seed": self.seed, "tier": self.tier},
+                              "detail": {"kind": "trace-rejected", "what": model, "event": None, "tlc": msg[:600]}})
+        for at in ats:
+            self.add_failure({"family": "trace", "case": {"model": model, "seed": self.seed, "tier": self.tier, "event_index": at},
+                              "detail": {"kind": "trace-rejected", "what": model, "event": evs.get(at)}})
+        if total > len(ats):
+            self.failures.append(("(%d further rejected events of %s not itemised)" % (total - len(ats), label), None))
         return False
 
     def record_and_validate(self, family, model, args=(), label=None, cfg=None, count_key=None, timeout=3600):
